@@ -105,10 +105,10 @@ Cls(rule, c) == [c |-> c,          nrc |-> 0, rule |-> rule]
 \*           (only reachable with R2 disabled)?
 \*   multi   is a multi-identifier read whose first identifier is the session DID a
 \*           "session read"?
-Opts(V, q) ==
+Opts(V, B, q) ==
   [sf      : IF Sid(q) \in V.known THEN {V.sf[Sid(q)]} ELSE BOOLEAN,
-   r3short : BOOLEAN,
-   multi   : BOOLEAN]
+   r3short : IF ~Has2(q) /\ "msf" \notin B /\ "sfns" \in B THEN BOOLEAN ELSE {FALSE},
+   multi   : IF Sid(q) = SID_RDBI /\ q.n > 3 /\ "sr" \in B THEN BOOLEAN ELSE {FALSE}]
 
 \* The ordered chain [ORD]: first applicable ENABLED rule.  [E4] is built in: the
 \* answer under B \ {r} is the same chain with rule r skipped and nothing else changed.
@@ -199,28 +199,36 @@ PreCands(pre, vis) ==
 \* which the request arrived.
 StepVerdictE(V, B, before, x) ==
   LET q  == x.q
-      os == Opts(V, q)
+      os == Opts(V, B, q)
       cs == PreCands(x.pre, x.vis)
       canon == Chain(V, B, before, q, CHOOSE o \in os : TRUE)
+      M1(o, p) == Matches(Chain(V, B, before, q, o), B, before, q, p)
   IN
   IF x.raised # "" THEN
        IF B = Rules THEN "E1/raises-instead-of-answering" ELSE "E4/rule-off-raises"
-  ELSE IF ~\E o \in os, p \in cs : Matches(Chain(V, B, before, q, o), B, before, q, p)
+  ELSE IF \E o \in os, p \in cs : /\ M1(o, p)
+                                  /\ VisibleOk(B, q, o, p, x.vis)
+                                  /\ x.after \in NextStates(before, q, p)
+       THEN "ok"
+  ELSE IF ~\E o \in os, p \in cs : M1(o, p)
        THEN "E1/" \o canon.rule
-  ELSE IF ~\E o \in os, p \in cs : /\ Matches(Chain(V, B, before, q, o), B, before, q, p)
-                                   /\ VisibleOk(B, q, o, p, x.vis)
+  ELSE IF ~\E o \in os, p \in cs : M1(o, p) /\ VisibleOk(B, q, o, p, x.vis)
        THEN IF x.vis.k = "none" THEN "E2/negative-or-unset-bit-suppressed"
                                 ELSE "E2/positive-not-suppressed"
-  ELSE IF ~\E o \in os, p \in cs : /\ Matches(Chain(V, B, before, q, o), B, before, q, p)
-                                   /\ VisibleOk(B, q, o, p, x.vis)
-                                   /\ x.after \in NextStates(before, q, p)
-       THEN "E3/state-update"
-  ELSE "ok"
+  ELSE "E3/state-update"
+
+ChainRuleNames == {"R1a/serviceNotSupported", "R1b/serviceNotSupportedInActiveSession", "R2/missingSubFunction",
+                   "R3/subFunctionNotSupported", "R3/subFunctionNotSupportedInActiveSession", "R4/incorrectFormat",
+                   "sessionChange", "sessionRead", "testerPresent", "serviceSpecific"}
+E1Labels == {"E1/" \o r : r \in ChainRuleNames} \cup {"E1/raises-instead-of-answering"}
+E2Labels == {"E2/negative-or-unset-bit-suppressed", "E2/positive-not-suppressed"}
+E3Labels == {"E3/state-update"}
+E4Labels == {"E4/rule-off-raises"}
 
 \* was any admissible explanation one that needed an `unspecified` option?
 Unspecified(V, B, before, x) ==
   /\ x.raised = ""
-  /\ Cardinality({Chain(V, B, before, x.q, o) : o \in Opts(V, x.q)}) > 1
+  /\ Cardinality({Chain(V, B, before, x.q, o) : o \in Opts(V, B, x.q)}) > 1
 
 \* C14.  A1: no raise, connection loop still serving; a missing answer must be
 \* explained by the suppress rule.  A2: session offered.  A3: reply well formed
